@@ -790,6 +790,7 @@ Record crash := {
   cr_part : nat;
   cr_size : N;                   (* real size of the partition's active log *)
   cr_last : nat;                 (* real size of its last entry *)
+  cr_bytes : list N;             (* the real bytes of that log file *)
   cr_cuts : list (nat * obs)     (* bytes kept, observation of the index reopened on the image *)
 }.
 Record case := {
@@ -801,6 +802,15 @@ Record case := {
   c_steps : list cstep;
   c_crash : option crash
 }.
+
+(** the hypothesis of the compaction theorems, checked on every replayed history at every
+    observation point: no tag key carries a tombstone, and every id tombstoned in some file is
+    deleted in the series file *)
+Definition file_no_key_tomb (f : file) : bool :=
+  forallb (fun nm => forallb (fun kk => negb (tk_del (snd kk))) (m_keys (snd nm))) (f_meas f).
+Definition st_okb (st : index) : bool :=
+  forallb (fun p => forallb (fun f => file_no_key_tomb f && forallb (fun z => smem z (i_sdel st)) (f_ts f))
+                            (p_files p)) (i_parts st).
 
 Definition is_raw (o : op) : bool := match o with ODropMeas _ => true | _ => false end.
 
@@ -819,7 +829,7 @@ Fixpoint replay_steps (u : universe) (strict : bool) (st : index) (sp : spec) (r
       | Some o =>
           let q := observe u st1 in
           let '(sm, ok, fin) := replay_steps u strict (fst q) sp1 raw1 r in
-          (same_shape && obs_eq o (snd q) && sm, oracle u strict raw1 sp1 o && ok, fin)
+          (same_shape && st_okb st1 && obs_eq o (snd q) && sm, oracle u strict raw1 sp1 o && ok, fin)
       end
   end.
 
@@ -836,9 +846,16 @@ Definition active_size (st : index) (p : nat) : N :=
   | None => 0
   end.
 
+Definition active_bytes (st : index) (p : nat) : list N :=
+  match nth_error (i_parts st) p with
+  | Some pt => match p_files pt with a :: _ => enc_log crc32 (f_log a) | [] => [] end
+  | None => []
+  end.
+
 Definition check_crash (u : universe) (st : index) (c : crash) : bool * bool :=
   let sz := N.to_nat (active_size st (cr_part c)) in
-  let same0 := N.eqb (active_size st (cr_part c)) (cr_size c) && Nat.eqb (last_entry_size st (cr_part c)) (cr_last c) in
+  let same0 := N.eqb (active_size st (cr_part c)) (cr_size c) && Nat.eqb (last_entry_size st (cr_part c)) (cr_last c)
+               && list_eqb N.eqb (active_bytes st (cr_part c)) (cr_bytes c) in
   fold_left (fun (acc : bool * bool) co =>
                let img := crash_reopen st (cr_part c) (fst co) in
                let om := snd (observe u (settle (fst img))) in
